@@ -50,7 +50,8 @@ MINIMUMS = {"same_instance_recorded_again": 300, "monitor:fold": 20000, "monitor
 JOBS = {"quick": 4, "thorough": 16}
 LEVEL_TEXT = (
     "Trees of up to 3 nodes (all shapes, kinds, placements) with seeded record layouts are run under every gate-release order (DFS, capped), 4-5 node trees sampled; inside each "
-    "completion callback read(T) and the merged view are compared with a reference fold computed from the harness log (record order, lexical landing scope, construction order of nested scopes)."
+    "completion callback read(T) and the merged view are compared with a reference fold computed from the harness log (record order, lexical landing scope, construction order of nested scopes). "
+    "Seeded histories over metric types in a subclass relation (and an unspecialised generic next to its specialisations) check that every type is folded by itself."
 )
 LEVEL_NOTE = "Trusted: lexical landing-scope walk (record_sites), harness log order, the reference fold in hv/props/c10.py, gate scheduler, VirtualLoop."
 
